@@ -94,6 +94,12 @@ class RF24:
         after_toggle = self._reg_read(TX_FEATURE)
         if self._features == after_toggle:
             self._is_plus_variant = True
+            if not after_toggle:
+                # a non-plus variant with all features off reads 0 whether locked or not
+                self._reg_write(TX_FEATURE, 5)
+                if not self._reg_read(TX_FEATURE):  # write ignored: features are locked
+                    self._is_plus_variant = False
+                    self._reg_write(0x50, 0x73)  # ensure they're enabled
         elif not after_toggle:  # if features are disabled
             self._reg_write(0x50, 0x73)  # ensure they're enabled
         # pre-configure features for TX operations:
